@@ -64,6 +64,7 @@ def as_text(v: Any) -> Optional[Text]:
 
 
 Oracle = Callable[[ast.expr, Dict[str, Any]], Optional[bool]]
+_in_test: Dict[int, bool] = {}  # guards the value() <-> test() mutual recursion
 CallHook = Callable[[ast.Call, List[Any], Dict[str, Any]], Any]
 Outcome = Tuple[str, Optional[ast.AST], Any]
 
@@ -91,6 +92,13 @@ class Explorer:
                 return v
         if isinstance(e, ast.Name) and e.id in env:
             return env[e.id]
+        if isinstance(e, (ast.Compare, ast.BoolOp)) or (isinstance(e, ast.UnaryOp) and isinstance(e.op, ast.Not)) or (
+            isinstance(e, ast.Call) and isinstance(e.func, ast.Name) and e.func.id == "isinstance"
+        ):
+            # a boolean the test oracle can decide is that boolean
+            d = self.test(e, env) if not _in_test.get(id(e)) else None
+            if d is not None:
+                return d
         if isinstance(e, ast.JoinedStr):
             parts: List[Optional[str]] = []
             for p in e.values:
@@ -153,6 +161,15 @@ class Explorer:
         o = self.oracle(t, env)
         if o is not None:
             return o
+        if _in_test.get(id(t)):
+            return None
+        _in_test[id(t)] = True
+        try:
+            return self._test(t, env)
+        finally:
+            _in_test.pop(id(t), None)
+
+    def _test(self, t: ast.expr, env: Dict[str, Any]) -> Optional[bool]:
         if isinstance(t, ast.UnaryOp) and isinstance(t.op, ast.Not):
             v = self.test(t.operand, env)
             return None if v is None else not v
